@@ -19,7 +19,7 @@ ASSUMPTIONS = ['context bound 2 with B run to completion; schedules with three o
                'CPython with the GIL: a preemption can only happen between bytecodes, which the LINE / INSTRUCTION events enumerate']
 
 GEO = ['l2c_mid', 'l2c_pole', 'l2c_anti_hi', 'c2l_deep', 'c2b_auto_low', 'c2b_seg']
-OTHER = ['c2l_low', 'compact', 'uncompact', 'children', 'parent', 'hex', 'meta']
+OTHER = ['c2l_low', 'compact', 'uncompact', 'children', 'parent', 'hex', 'meta', 'res0', 'l2c_mid_alt', 'l2c_pole_alt', 'l2c_anti_alt']
 
 
 def catalogue(a5, seed):
@@ -34,10 +34,24 @@ def catalogue(a5, seed):
     c26 = a5.lonlat_to_cell((rnd.uniform(-170, 170), rnd.uniform(-60, 60)), 26)
     c1 = a5.lonlat_to_cell((rnd.uniform(-170, 170), rnd.uniform(-60, 60)), 1)
     kids = a5.cell_to_children(a5.lonlat_to_cell((rnd.uniform(-170, 170), rnd.uniform(-60, 60)), 4), 6)
+    rm, rp, ra = rnd.randint(8, 14), rnd.randint(15, 22), rnd.randint(25, 29)
+
+    def corner_point(p, r):
+        # another point at the same resolution, just inside a corner of some cell nearby (needs the later search samples)
+        from rv import geo
+        c = a5.lonlat_to_cell((p[0] + rnd.uniform(-3, 3), max(-89.0, min(89.0, p[1] + rnd.uniform(-3, 3)))), r)
+        ring = a5.cell_to_boundary(c, {'segments': 1, 'closed_ring': False})
+        cv = geo.ll_to_vec(*a5.cell_to_lonlat(c))
+        e = geo.ll_to_vec(*ring[rnd.randrange(len(ring))])
+        t = 10 ** rnd.uniform(-4, -2)
+        return list(geo.vec_to_ll(geo.unit(geo.add(geo.scale(e, 1 - t), geo.scale(cv, t)))))
     return {
-        'l2c_mid': ('lonlat_to_cell', [list(pm), rnd.randint(8, 14)]),
-        'l2c_pole': ('lonlat_to_cell', [list(pp), rnd.randint(15, 22)]),
-        'l2c_anti_hi': ('lonlat_to_cell', [list(pa), rnd.randint(25, 29)]),
+        'l2c_mid': ('lonlat_to_cell', [list(pm), rm]),
+        'l2c_pole': ('lonlat_to_cell', [list(pp), rp]),
+        'l2c_anti_hi': ('lonlat_to_cell', [list(pa), ra]),
+        'l2c_mid_alt': ('lonlat_to_cell', [corner_point(pm, rm), rm]),
+        'l2c_pole_alt': ('lonlat_to_cell', [corner_point((pp[0], 60.0 if pp[1] > 0 else -60.0), rp), rp]),
+        'l2c_anti_alt': ('lonlat_to_cell', [corner_point((170.0, pa[1]), ra), ra]),
         'c2l_deep': ('cell_to_lonlat', [c20]),
         'c2l_low': ('cell_to_lonlat', [c1]),
         'c2b_auto_low': ('cell_to_boundary', [c3]),
@@ -48,6 +62,7 @@ def catalogue(a5, seed):
         'parent': ('cell_to_parent', [c20, 4]),
         'hex': ('hex_roundtrip', [c20]),
         'meta': ('meta', [c9]),
+        'res0': ('get_res0_cells', []),
     }
 
 
@@ -85,6 +100,7 @@ def plan(tier, seed):
         specs.append({'part': 'threads', 'threads': nt, 'seconds': 15 if tier == 'quick' else 100})
     nsc = 6 if tier == 'quick' else 18
     cpairs = [(a, b) for a in GEO for b in ('l2c_mid', 'c2b_seg', 'c2l_deep')]
+    cpairs += [('l2c_mid', 'l2c_mid_alt'), ('l2c_pole', 'l2c_pole_alt'), ('l2c_anti_hi', 'l2c_anti_alt'), ('res0', 'res0'), ('meta', 'children')]
     for i in range(nsc):
         specs.append({'part': 'inject_cold', 'pairs': cpairs[i::nsc], 'cap': 60 if tier == 'quick' else 600})
     specs.append({'part': 'footprint'})
@@ -130,6 +146,8 @@ def run_shard(spec, ctx):
             n = inj.events_in(make_call(a5, cat[an]), mode)
             ctx.maxi('events_%s_%s' % (mode, an), n)
             cap = spec['cap']
+            if cap and cap < 100 and n <= 700:
+                cap = 0  # short calls are cheap: every event
             if cap and n > cap:
                 step = n / cap
                 off = ctx.rnd.random() * step
